@@ -155,3 +155,4 @@ func DerivedParse(b *Built, pi int, input string) (ast any, err error, ok bool) 
 	}
 	return nil, nil, false
 }
+
